@@ -275,6 +275,17 @@ class Ex:
             return EnumV(ty, d, {0: {0: self.fresh(parts[0], name + '.ok')}, 1: {0: Opaque(parts[1].strip(), name + '.err')}})
         return StructV(ty, name)
 
+    def zero(self, ty, name):
+        """the all-zero-bytes value of a plain-data type (bytemuck::Zeroable::zeroed): scalars 0, records lazily zero"""
+        ty = ty.strip()
+        if ty in INT_RANGES: return IntV(z3.IntVal(0), ty)
+        if ty == 'bool': return BoolV(z3.BoolVal(False))
+        if ty in FIXED_TYS or ty.endswith('WrappedI80F48'): return IntV(z3.IntVal(0), I80)
+        if (ty in ('anchor_lang::prelude::Pubkey', 'Pubkey') or ty.endswith('::Pubkey')) and not ty.startswith('&'): return IntV(z3.IntVal(0), 'Pubkey')
+        sn = re.sub(r'<.*', '', ty).split('::')[-1]
+        if sn in ENUMS and sn not in ('Option', 'Result'): return EnumV(sn, 0, {})
+        return StructV(ty, name, {'__zero': True}, lazy=True)
+
     # ---- state
     def new_frame(self, fn):
         return {'fn': fn, 'locals': {}}
@@ -500,7 +511,7 @@ class Engine:
                 if isinstance(v, StructV):
                     if step[1] not in v.fields:
                         if not v.lazy: raise Exception(f'missing field {step} in {v}')
-                        v.fields[step[1]] = self.ex.fresh(step[2], f'{v.name}.{step[1]}')
+                        v.fields[step[1]] = (self.ex.zero if '__zero' in v.fields else self.ex.fresh)(step[2], f'{v.name}.{step[1]}')
                     v = v.fields[step[1]]
                 elif isinstance(v, dict):
                     v = v[step[1]]
@@ -518,7 +529,7 @@ class Engine:
                 if isinstance(v, StructV):
                     if step[1] not in v.fields:
                         elty = re.match(r'^\[(.*); .*\]$', v.ty)
-                        v.fields[step[1]] = self.ex.fresh(elty.group(1) if elty else '?', f'{v.name}[{step[1]}]')
+                        v.fields[step[1]] = (self.ex.zero if '__zero' in v.fields else self.ex.fresh)(elty.group(1) if elty else '?', f'{v.name}[{step[1]}]')
                     v = v.fields[step[1]]
                 else:
                     raise Exception(f'index of {v}')
@@ -704,6 +715,19 @@ class Engine:
                         e = e + part * (1 << lo_)
                     return IntV(e, ty)
             if op == 'Rem' : return IntV(ae % be, ty)
+            if op in ('BitXor', 'BitOr') and z3.is_int_value(eb) and ty in INT_RANGES and INT_RANGES[ty][0] == 0 and eb.as_long() >= 0:
+                # constant mask: x ^ m = x + m - 2*(x & m);  x | m = x + m - (x & m), with x & m arithmetised by the BitAnd case above
+                if True:
+                    y = eb.as_long(); nbits = INT_RANGES[ty][1].bit_length(); e_ = z3.IntVal(0); i_ = 0; nr = 0
+                    while i_ < nbits:
+                        if (y >> i_) & 1:
+                            j_ = i_
+                            while j_ < nbits and (y >> j_) & 1: j_ += 1
+                            part = (ae / (1 << i_)) if j_ >= nbits else ((ae / (1 << i_)) % (1 << (j_ - i_)))
+                            e_ = e_ + part * (1 << i_); i_ = j_; nr += 1
+                        else: i_ += 1
+                    if nr <= 8:
+                        return IntV(ae + y - (2 if op == 'BitXor' else 1) * e_, ty)
             if op in ('BitAnd', 'BitOr', 'BitXor') and ty in INT_RANGES and INT_RANGES[ty][0] == 0:
                 # symbolic (x) symbolic on unsigned words: a fresh result constrained by *true* lemmas about the operator
                 # (bounds + the disjoint-bits cases).  Sound over-approximation; a model that needs more is reported UNDECIDED.
@@ -1138,6 +1162,9 @@ class Engine:
                 if i >= len(it.fields['__keys']): return EnumV('Option', 0, {})
                 it.fields['__idx'] = i + 1
                 return EnumV('Option', 1, {1: {0: StructV('tuple', self.ex.fresh_name('kv'), {0: it.fields['__keys'][i], 1: it.fields['__cells'][i].val}, lazy=False)}})
+        zm_ = re.match(r'^<([\w:]+) as (?:bytemuck::)?Zeroable>::zeroed$', c)
+        if zm_ and zm_.group(1).split('::')[-1] in STRUCTS and not args:
+            return self.ex.zero(zm_.group(1), self.ex.fresh_name('zeroed_' + zm_.group(1).split('::')[-1]))
         bm_ = re.match(r'^Box::<(.*)>::new$', c)
         if bm_ and len(args) == 1 and not bm_.group(1).startswith('dyn ') and 'anchor_lang' not in bm_.group(1):
             return StructV('Box<%s>' % bm_.group(1), self.ex.fresh_name('box'), {'__pointee': Cell(args[0])}, lazy=True)
